@@ -181,7 +181,8 @@ impl<'a> Iterator for LinkIter<'a> {
                     Some(IterItem::Last(last))
                 }
                 Some((path, before, advance, quote_type)) => {
-                    self.data = &self.data[advance..];
+                    // a quote that isn't closed reaches the end of the data: `advance` is then one past it
+                    self.data = self.data.get(advance..).unwrap_or(&[]);
                     Some(IterItem::Path {
                         path,
                         before,
